@@ -564,6 +564,8 @@ const fn mul(a: u64, b: u64) -> u64 {
 #[inline(always)]
 #[allow(clippy::many_single_char_names)]
 fn inv(x: u64) -> u64 {
+    // zero can be represented both as 0 and as M
+    let x = normalize(x);
     if x == 0 {
         return 0;
     };
